@@ -499,7 +499,12 @@ class ThrottleStreamIO(StreamIO):
             if curr_throttle.limit:
                 tasks.append(asyncio.create_task(curr_throttle.wait()))
         if tasks:
-            await asyncio.wait(tasks)
+            try:
+                await asyncio.wait(tasks)
+            finally:
+                # cancelled while waiting: sleeping tasks are not left behind
+                for task in tasks:
+                    task.cancel()
 
     def append(self, name, data, start):
         """
